@@ -826,6 +826,9 @@ type rewriter struct {
 	err    error
 	// Inadmissible is set when a chosen site could not take its replacement.
 	skipped map[int]bool
+	// namesOnly: the value copied next stands on the left of ":=" (also in a range clause), where the
+	// syntax tree has room for an expression and the language for a name only.
+	namesOnly bool
 }
 
 // ErrUnbound is returned when the '+' side uses a metavariable or elision the
@@ -869,6 +872,10 @@ func (r *rewriter) siteOf(v reflect.Value) (int, bool) {
 // copy returns a deep, position-normalised copy of v in which chosen sites
 // are replaced; slot is the static type of the place the result goes to.
 func (r *rewriter) copy(v reflect.Value, slot reflect.Type) reflect.Value {
+	namesOnly := r.namesOnly
+	if v.Kind() != reflect.Interface {
+		r.namesOnly = false
+	}
 	switch v.Type() {
 	case posType:
 		if v.Int() != 0 {
@@ -907,7 +914,7 @@ func (r *rewriter) copy(v reflect.Value, slot reflect.Type) reflect.Value {
 					return reflect.Zero(v.Type())
 				}
 				rc := concrete(repl)
-				if rc.Type().AssignableTo(slot) {
+				if rc.Type().AssignableTo(slot) && !(namesOnly && rc.Type() != identPtr) {
 					return rc
 				}
 				r.skipped[si] = true // not syntactically admissible here: left unchanged
@@ -925,7 +932,24 @@ func (r *rewriter) copy(v reflect.Value, slot reflect.Type) reflect.Value {
 					continue
 				}
 			}
+			if tf := v.FieldByName("Tok"); tf.IsValid() && tf.Type() == reflect.TypeOf(token.DEFINE) && token.Token(tf.Int()) == token.DEFINE {
+				switch fn := v.Type().Field(i).Name; {
+				case v.Type().Name() == "AssignStmt" && fn == "Lhs":
+					lhs := v.Field(i)
+					cp := reflect.MakeSlice(lhs.Type(), lhs.Len(), lhs.Len())
+					for j := 0; j < lhs.Len(); j++ {
+						r.namesOnly = true
+						cp.Index(j).Set(r.copy(lhs.Index(j), lhs.Type().Elem()))
+					}
+					r.namesOnly = false
+					out.Field(i).Set(cp)
+					continue
+				case v.Type().Name() == "RangeStmt" && (fn == "Key" || fn == "Value"):
+					r.namesOnly = true
+				}
+			}
 			out.Field(i).Set(r.copy(v.Field(i), v.Type().Field(i).Type))
+			r.namesOnly = false
 		}
 		return out
 	case reflect.Slice:
